@@ -1,5 +1,5 @@
 SPECIFICATION Spec
-CONSTANT MaxOps = 5
+CONSTANT MaxOps = 4
 CONSTANT MaxCells = 9
 INVARIANT Preserved
 INVARIANT Emit
